@@ -25,7 +25,15 @@ def compile_recipe(prog, cfg, tickmode=None):
     """-> ("ok", text) | ("pterr", exc) | ("crash", exc)"""
     tm = tickmode or tickmode_for(cfg)
     try:
-        expr = rb.build(prog, cfg, tm)
+        # the recipe -> Expr builder is itself recursive (several Python frames per nesting level); it must not
+        # be what exhausts the recursion limit, so only the *compilation* runs under the caller's limit
+        import sys
+        lim = sys.getrecursionlimit()
+        sys.setrecursionlimit(max(lim, 20000))
+        try:
+            expr = rb.build(prog, cfg, tm)
+        finally:
+            sys.setrecursionlimit(lim)
         return "ok", rb.compile_cfg(expr, cfg)
     except PT_ERRORS as e:
         return "pterr", e
